@@ -6,18 +6,60 @@ import Mhd.Proofs.SendIdle
 namespace Mhd.Send
 open Mhd.Gen.Send
 
-/-- `closed` and `done` are final: nothing is sent, nothing changes -/
-theorem round_final {r : Resp} {c : Conn} (x : Round) (h : c.st = .closed ∨ c.st = .done) : round r c x = c := by
+theorem idleClosed_st (c : Conn) : (idleClosed c).st = c.st := by
+  unfold idleClosed; split <;> rfl
+
+theorem idleClosed_out (c : Conn) : (idleClosed c).out = c.out := by
+  unfold idleClosed; split <;> rfl
+
+theorem Bk.cleanup_idem (b : Bk) : b.cleanup.cleanup = b.cleanup := by
+  unfold Bk.cleanup
+  by_cases h : b.inCleanup = true
+  · simp [h]
+  · simp [h]
+
+theorem Bk.cleanup_cst (b : Bk) : b.cleanup.cstClosed = b.cstClosed := by
+  unfold Bk.cleanup; split <;> rfl
+
+/-- `cleanup_connection` is guarded: a second pass through the CLOSED case changes nothing -/
+theorem idleClosed_idem (c : Conn) : idleClosed (idleClosed c) = idleClosed c := by
+  by_cases h : c.bk.cstClosed = true
+  · have e : idleClosed c = { c with bk := c.bk.cleanup } := by unfold idleClosed; rw [if_pos h]
+    rw [e]; unfold idleClosed
+    have h2 : ({ c with bk := c.bk.cleanup } : Conn).bk.cstClosed = true := by
+      show c.bk.cleanup.cstClosed = true
+      rw [Bk.cleanup_cst]; exact h
+    rw [if_pos h2]
+    show ({ c with bk := c.bk.cleanup.cleanup } : Conn) = _
+    rw [Bk.cleanup_idem]
+  · have e : idleClosed c = c := by unfold idleClosed; rw [if_neg h]
+    rw [e, e]
+
+/-- `closed` and `done` are final: nothing is sent; the only thing that still happens is the
+    (guarded) `cleanup_connection` of a connection whose C state is CLOSED -/
+theorem round_final {r : Resp} {c : Conn} (x : Round) (h : c.st = .closed ∨ c.st = .done) :
+    round r c x = idleClosed c := by
   rcases h with h | h <;>
     simp [round, handleWrite, handleIdle, idleStep, h]
 
-theorem run_final {r : Resp} : ∀ (xs : List Round) (c : Conn), (c.st = .closed ∨ c.st = .done) → run r c xs = c
-  | [], _, _ => rfl
+theorem run_final {r : Resp} : ∀ (xs : List Round) (c : Conn), (c.st = .closed ∨ c.st = .done) →
+    run r c xs = c ∨ run r c xs = idleClosed c
+  | [], _, _ => Or.inl rfl
   | x :: xs, c, h => by
     unfold run
     simp only [List.foldl_cons]
     rw [round_final x h]
-    exact run_final xs c h
+    have hst : (idleClosed c).st = .closed ∨ (idleClosed c).st = .done := by rw [idleClosed_st]; exact h
+    rcases run_final xs (idleClosed c) hst with e | e
+    · right; exact e
+    · right; unfold run at e; rw [e, idleClosed_idem]
+
+/-- … and once that clean-up has run (or is not due), nothing changes at all -/
+theorem run_settled {r : Resp} (xs : List Round) (c : Conn) (h : c.st = .closed ∨ c.st = .done)
+    (hs : idleClosed c = c) : run r c xs = c := by
+  rcases run_final (r := r) xs c h with e | e
+  · exact e
+  · rw [e, hs]
 
 /-- an errno that the senders do not map to "try again" -/
 def Errno.isHard (e : Errno) : Prop := mapSendErr e ≠ .again
@@ -25,7 +67,7 @@ def Errno.isHard (e : Errno) : Prop := mapSendErr e ≠ .again
 instance : DecidablePred Errno.isHard := fun e => inferInstanceAs (Decidable (mapSendErr e ≠ .again))
 
 theorem handleIdle_closed {r : Resp} {c : Conn} (app : AppAns) (alloc : Bool) (h : c.st = .closed) :
-    handleIdle r c app alloc = c := by
+    handleIdle r c app alloc = idleClosed c := by
   simp [handleIdle, idleStep, h]
 
 theorem sysSend_err (req : Bytes) (e : Errno) : sysSend req (.err e) = .fail (mapSendErr e) := rfl
@@ -63,14 +105,15 @@ theorem tryReady_out (r : Resp) (c : Conn) (app : AppAns) (alloc : Bool) :
 /-- A hard error answer to the system call of `MHD_connection_handle_write` closes the
     connection without sending anything — or the call was not made at all in this round
     (then the answer does not matter).  Standard senders (`sf = false`). -/
-theorem hard_error_closes_aux {r : Resp} {c : Conn} (e : Errno) (he : Errno.isHard e) (hsf : c.sf = false)
+theorem hard_error_closes_aux {r : Resp} {c : Conn} (e : Errno) (he : Errno.isHard e)
+    (hsf : c.st = .normalBodyReady → c.sf = false)
     (x : Round) (hwr : x.wr = true) (hs1 : x.s1 = .err e) :
     ((round r c x).st = .closed ∧ (round r c x).out = c.out) ∨ round r c x = round r c { x with s1 := .full } := by
   have hclosed : ∀ c1 : Conn, handleWrite r c x.s1 x.s2 x.appW x.allocW = closeErr c1 → c1.out = c.out →
       ((round r c x).st = .closed ∧ (round r c x).out = c.out) := by
     intro c1 h1 h2
     unfold round
-    rw [if_pos hwr, h1, handleIdle_closed _ _ rfl]
+    rw [if_pos hwr, h1, handleIdle_closed _ _ rfl, idleClosed_st, idleClosed_out]
     exact ⟨rfl, h2⟩
   have hsame : handleWrite r c x.s1 x.s2 x.appW x.allocW = handleWrite r c .full x.s2 x.appW x.allocW →
       round r c x = round r c { x with s1 := .full } := by
@@ -122,6 +165,7 @@ theorem hard_error_closes_aux {r : Resp} {c : Conn} (e : Errno) (he : Errno.isHa
       · exact wbAccount_hard c e he _
       · simp
   | normalBodyReady =>
+    have hsf := hsf hs
     unfold handleWrite at hclosed hsame
     rw [hs] at hclosed hsame
     simp only [] at hclosed hsame
@@ -187,6 +231,82 @@ theorem hard_error_closes_aux {r : Resp} {c : Conn} (e : Errno) (he : Errno.isHa
 
 
 
+/-- sendfile(): EBADF is the one errno `MHD_send_sendfile_` treats as permanent -/
+def Errno.isHardSendfile (e : Errno) : Prop := e.isEbadf = true ∧ e.isEagain = false ∧ e.isEintr = false
+
+instance : DecidablePred Errno.isHardSendfile := fun e =>
+  inferInstanceAs (Decidable (e.isEbadf = true ∧ e.isEagain = false ∧ e.isEintr = false))
+
+/-- The same for the sendfile sender: EBADF closes the connection without sending anything — or
+    no sendfile() call was made in this round. -/
+theorem sendfile_hard_closes_aux {r : Resp} {c : Conn} (e : Errno) (he : Errno.isHardSendfile e)
+    (hs : c.st = .normalBodyReady) (hsf : c.sf = true)
+    (x : Round) (hwr : x.wr = true) (hs1 : x.s1 = .err e) :
+    ((round r c x).st = .closed ∧ (round r c x).out = c.out) ∨ round r c x = round r c { x with s1 := .full } := by
+  obtain ⟨hb, h1, h2⟩ := he
+  have hclosed : ∀ c1 : Conn, handleWrite r c x.s1 x.s2 x.appW x.allocW = closeErr c1 → c1.out = c.out →
+      ((round r c x).st = .closed ∧ (round r c x).out = c.out) := by
+    intro c1 h1 h2
+    unfold round
+    rw [if_pos hwr, h1, handleIdle_closed _ _ rfl, idleClosed_st, idleClosed_out]
+    exact ⟨rfl, h2⟩
+  have hsame : handleWrite r c x.s1 x.s2 x.appW x.allocW = handleWrite r c .full x.s2 x.appW x.allocW →
+      round r c x = round r c { x with s1 := .full } := by
+    intro h; unfold round; simp only [hwr, if_true]; rw [h]
+  unfold handleWrite at hclosed hsame
+  rw [hs] at hclosed hsame
+  simp only [] at hclosed hsame
+  unfold hwNormalBody at hclosed hsame
+  simp only [] at hclosed hsame
+  by_cases hlt : c.rp < c.tot
+  · rw [if_pos hlt] at hclosed
+    rw [if_pos hlt, if_pos hlt] at hsame
+    have hsf' := tryReady_sf r c x.appW x.allocW
+    have hout' := tryReady_out r c x.appW x.allocW
+    cases hres : tryReadyNormalBody r c x.appW x.allocW with
+    | mk c' ok =>
+      rw [hres] at hsf' hout'
+      simp only [] at hsf' hout'
+      cases ok with
+      | false => right; apply hsame; simp only [hres]
+      | true =>
+        simp only [hres] at hclosed hsame
+        have hsfT : c'.sf = true := by rw [hsf']; exact hsf
+        rw [if_pos hsfT] at hclosed
+        rw [if_pos hsfT, if_pos hsfT] at hsame
+        by_cases hov : off64Max < c'.rp + r.fdOff
+        · right; apply hsame
+          simp only [sendSendfile, hov, if_true]
+        · left
+          rw [hs1] at hclosed
+          have hx : sendSendfile r.thrPerConn r.body r.fdOff c'.rp c'.tot (.err e) = ⟨.fail .badf, true⟩ := by
+            simp only [sendSendfile, hov, if_false, h1, h2, hb, Bool.false_eq_true, if_true]
+          rw [hx] at hclosed
+          apply hclosed { c' with out := c'.out ++ [], sf := true }
+          · simp only [SendOut.fail]
+          · simp [hout']
+  · right; apply hsame; rw [if_neg hlt, if_neg hlt]
+
+/-- "permanent failure" as the code classifies it: for the sendfile sender only EBADF, for the
+    standard senders every errno that is not mapped to "try again" -/
+def Permanent (c : Conn) (e : Errno) : Prop :=
+  if c.st = .normalBodyReady ∧ c.sf = true then Errno.isHardSendfile e else Errno.isHard e
+
+instance (c : Conn) (e : Errno) : Decidable (Permanent c e) := by unfold Permanent; exact inferInstance
+
+theorem permanent_closes_aux {r : Resp} {c : Conn} (e : Errno) (he : Permanent c e)
+    (x : Round) (hwr : x.wr = true) (hs1 : x.s1 = .err e) :
+    ((round r c x).st = .closed ∧ (round r c x).out = c.out) ∨ round r c x = round r c { x with s1 := .full } := by
+  unfold Permanent at he
+  by_cases h : c.st = .normalBodyReady ∧ c.sf = true
+  · rw [if_pos h] at he
+    exact sendfile_hard_closes_aux e he h.1 h.2 x hwr hs1
+  · rw [if_neg h] at he
+    refine hard_error_closes_aux e he (fun hs => ?_) x hwr hs1
+    cases hsf : c.sf
+    · rfl
+    · exact absurd ⟨hs, hsf⟩ h
+
 theorem tryReady_alloc (r : Resp) (c : Conn) (app : AppAns) :
     tryReadyNormalBody r c app false = (closeErr c, false) ∨
     tryReadyNormalBody r c app false = tryReadyNormalBody r c app true := by
@@ -232,17 +352,19 @@ theorem handleIdle_alloc (r : Resp) (c : Conn) (app : AppAns) :
   unfold handleIdle
   rcases idleStep_alloc r c app with h1 | h1
   · left
-    rw [idleStep_closed r _ app false h1, idleStep_closed r _ app false h1, idleStep_closed r _ app false h1]; exact h1
+    rw [idleClosed_st, idleStep_closed r _ app false h1, idleStep_closed r _ app false h1, idleStep_closed r _ app false h1]; exact h1
   · rw [h1]
     rcases idleStep_alloc r (idleStep r c app true) app with h2 | h2
     · left
-      rw [idleStep_closed r _ app false h2, idleStep_closed r _ app false h2]; exact h2
+      rw [idleClosed_st, idleStep_closed r _ app false h2, idleStep_closed r _ app false h2]; exact h2
     · rw [h2]
       rcases idleStep_alloc r (idleStep r (idleStep r c app true) app true) app with h3 | h3
       · left
-        rw [idleStep_closed r _ app false h3]; exact h3
+        rw [idleClosed_st, idleStep_closed r _ app false h3]; exact h3
       · rw [h3]
-        exact idleStep_alloc r _ app
+        rcases idleStep_alloc r (idleStep r (idleStep r (idleStep r c app true) app true) app true) app with h4 | h4
+        · left; rw [idleClosed_st]; exact h4
+        · right; rw [h4]
 
 theorem handleWrite_alloc (r : Resp) (c : Conn) (s1 s2 : SockRes) (app : AppAns) :
     (handleWrite r c s1 s2 app false).st = .closed ∨
@@ -284,7 +406,7 @@ theorem round_alloc (r : Resp) (c : Conn) (x : Round) :
     simp only [if_true]
     rcases handleWrite_alloc r c x.s1 x.s2 x.appW with h | h
     · left
-      simp [handleIdle, idleStep, h]
+      rw [handleIdle_closed _ _ h, idleClosed_st]; exact h
     · rw [h]
       exact handleIdle_alloc r _ x.appI
 
